@@ -27,11 +27,11 @@ type psched struct {
 	Name     string `json:"name"`
 	Backend  string `json:"backend"`
 	Clients  int    `json:"clients"`
-	Start    string `json:"start"`    // cold | fresh | stale-304 | stale-200
-	Outcome  string `json:"outcome"`  // cacheable | no-store | status-500
-	Cancel   int    `json:"cancel"`   // 0 none; i>0: a thread cancels client i's context at any point
-	Evictor  string `json:"evictor"`  // "" | delete | tick
-	Slow     bool   `json:"slow"`     // clients read slowly (yield per written chunk)
+	Start    string `json:"start"`     // cold | fresh | stale-304 | stale-200
+	Outcome  string `json:"outcome"`   // cacheable | no-store | status-500
+	Cancel   int    `json:"cancel"`    // 0 none; i>0: a thread cancels client i's context at any point
+	Evictor  string `json:"evictor"`   // "" | delete | tick
+	Slow     bool   `json:"slow"`      // clients read slowly (yield per written chunk)
 	AdvanceS int    `json:"advance_s"` // a thread advances the clock by that many seconds at any point
 	TickS    int    `json:"tick_s"`    // cleanup interval in seconds; a thread lets one interval pass (janitor cycle) at any point
 	LimitTo  int64  `json:"limit_to"`  // a thread changes max_cache_size to this value at any point (config-change event)
@@ -43,7 +43,7 @@ type psched struct {
 	// of the exchange. If the switch was complete before the origin answered, the response is stored
 	// under the new policy: a request two seconds later must ask the origin again (C03).
 	Policy string `json:"policy"`
-	Prop      string `json:"prop"`
+	Prop   string `json:"prop"`
 }
 
 var demotedAtomics map[uintptr]bool
@@ -114,7 +114,19 @@ func scenarioProxySched(c *vrun.Ctx) {
 			env.origin.Put(uri, res)
 			raw := rawRequest("GET", uri, nil, "")
 			// start state
-			if p.Start != "cold" {
+			if strings.HasPrefix(p.Start, "after-") {
+				// the key has a history: an earlier request got an answer that could not be stored (the origin
+				// was failing, or the resource was marked no-store at the time). Nothing is stored, the resource
+				// is cacheable now: the concurrent phase is a cold one like any other.
+				savedHeaders, savedStatus := res.Headers, res.Status
+				if p.Start == "after-no-store" {
+					res.Headers = vnet.H{{"Cache-Control", "no-store"}}
+				} else {
+					res.Status = 503
+				}
+				vnet.ServeRecorded(env.p, raw, nil, nil)
+				res.Headers, res.Status = savedHeaders, savedStatus
+			} else if p.Start != "cold" {
 				vnet.ServeRecorded(env.p, raw, nil, nil)
 				switch p.Start {
 				case "stale-304":
